@@ -1,7 +1,7 @@
 ENGINES = [
-    {"name": "E1 history + reference model", "path": "fv/", "serves_properties": ["C01"],
+    {"name": "E1 history + reference model", "path": "fv/", "serves_properties": ["C01", "C03", "C04", "C08", "C14", "C15"],
      "kind_free_text": "Python stdlib driver: seeded command histories sent over TCP to a private hooks-on ferrous child; every reply and canonical dumps compared with a small sequential Redis model"},
-    {"name": "E2 hooked-state invariants", "path": "fv/diff.py (VERIF CHECK)", "serves_properties": ["C01"],
+    {"name": "E2 hooked-state invariants", "path": "fv/diff.py (VERIF CHECK)", "serves_properties": ["C03", "C04", "C15"],
      "kind_free_text": "cfg-guarded VERIF admin command walking skip lists, streams, pending lists, expiry index, blocking registry under their own locks"},
 ]
 NOTES = ("Runtime monitoring only: every verdict is 'held on the executions described in evidence/<id>.json'. "
@@ -11,6 +11,27 @@ add("C01", "exploration",
     "10^6-scale lock-step differential run of generated string/key-space histories against a sequential Redis model, with per-key probes after refused commands and full dumps; right level because the quantifier is over unbounded command sequences and argument values: a total oracle over stratified random histories plus boundary pools is what runtime monitoring can offer",
     "trusted: the reference model (fv/model.py), the RESP client, error replies compared as a class only; don't-care forms (fv/DONTCARE.md) not generated",
     "reference-model differential monitor over recorded client histories", "E1", "DESIGN.md 7/C01")
+
+add("C03", "exploration",
+    "10^6-scale differential run of generated list/set/hash histories against the sequential model (all index forms, duplicates, multi-key algebra with missing/wrong-type operands, admissibility of random picks), probes after refusals, invariant walk (no empty collection kept) and dump per history",
+    "trusted: reference model, RESP client; SINTER with a missing operand before a wrong-type one and non-canonical integers are don't-cares",
+    "reference-model differential monitor over recorded client histories", "E1", "DESIGN.md 7/C03")
+add("C04", "exploration",
+    "differential run of sorted-set histories with colliding scores against a (score, member) ordered model plus the skip-list structural walker (all levels, index agreement, no NaN) every 8 commands; in-process skip-list harness under Miri/ASan in thorough",
+    "trusted: reference model, float comparison of scores; walker reads the structure under its own lock at quiescent points",
+    "reference-model differential monitor + hooked structural invariant walker (+ Miri/ASan on the in-process harness)", "E1+E2", "DESIGN.md 7/C04")
+add("C08", "exploration",
+    "complete enumeration of the write catalogue x watched-key state x arrival path, with the no-false-abort side (other keys same/other shard/other DB, reads), bookkeeping, served blocking pops, expiry, 10^4 cycles; finite space enumerated completely each run",
+    "trusted: the model's verdict on whether a command changed the key; no-op writes on the watched key are don't-care",
+    "exhaustive scenario enumeration with a model-derived abort oracle at the client boundary", "E1", "DESIGN.md 7/C08")
+add("C14", "exploration",
+    "stepwise multi-client pub/sub histories with a PING-token fence instead of sleeps; exact oracle on pushes per client, PUBLISH counts and acknowledgement counts",
+    "trusted: own byte-wise glob matcher; pushes are buffered synchronously at publish time",
+    "trace monitor over recorded per-connection event logs against a subscription-table model", "E1", "DESIGN.md 7/C14")
+add("C15", "exploration",
+    "differential run of stream histories (auto/explicit IDs at all edges, XDEL/XTRIM, range reads with bounds placed around stored IDs) against a sorted-map model with max-ever last-id; stream walker every 10 commands",
+    "trusted: reference model; only complete ms-seq IDs are sent; field order inside an entry is not compared",
+    "reference-model differential monitor + hooked stream invariant walker", "E1+E2", "DESIGN.md 7/C15")
 
 for pid in ["C02","C03","C04","C05","C06","C07","C08","C09","C10","C11","C12","C13","C14","C15","C16","C17","C18","C19","C20"]:
     if pid not in CHECKS:
